@@ -39,7 +39,16 @@ var (
 	ErrTableNotExist     = errors.New("table does not exist")
 	ErrTypeMismatch      = errors.New("types do not match")
 	ErrIntOutOfRange     = errors.New("integer value out of range")
+	ErrCatalogReadOnly   = errors.New("catalog tables cannot be modified directly")
 )
+
+// isCatalogTable reports whether the name is one of the tables that describe
+// the database itself. Their rows are maintained by CREATE TABLE and by root
+// moves; rows written or removed through INSERT, UPDATE or DELETE make every
+// later statement read pages and column types that do not exist.
+func isCatalogTable(tableName string) bool {
+	return tableName == pageTableName || tableName == schemaTableName
+}
 
 type FieldDef struct {
 	DataType
@@ -864,6 +873,10 @@ func (rs *RelationService) scanRelation(fileOffset uint64, r *Relation, fields F
 func (rs *RelationService) Insert(tableName string, cols []string, vals []interface{}) (WALBatch, error) {
 	var walLogs WALBatch
 
+	if isCatalogTable(tableName) {
+		return walLogs, ErrCatalogReadOnly
+	}
+
 	fileOffset, err := rs.getRelationFileOffset(tableName)
 	if err != nil {
 		return walLogs, err
@@ -941,6 +954,9 @@ func (rs *RelationService) Insert(tableName string, cols []string, vals []interf
 // of the row itself (unknown table, column count, value types, row size),
 // without storing anything.
 func (rs *RelationService) ValidateInsert(tableName string, cols []string, vals []interface{}) error {
+	if isCatalogTable(tableName) {
+		return ErrCatalogReadOnly
+	}
 	if _, err := rs.getRelationFileOffset(tableName); err != nil {
 		return err
 	}
@@ -979,6 +995,9 @@ func (rs *RelationService) ValidateInsert(tableName string, cols []string, vals 
 // ValidateUpdate reports the error Update would return for this row because
 // of the new values (value types, row size), without changing anything.
 func (rs *RelationService) ValidateUpdate(tableName string, rowID uint32, cols []string, updateSrc []interface{}) error {
+	if isCatalogTable(tableName) {
+		return ErrCatalogReadOnly
+	}
 	fileOffset, err := rs.getRelationFileOffset(tableName)
 	if err != nil {
 		return err
@@ -1018,6 +1037,10 @@ func (rs *RelationService) ValidateUpdate(tableName string, rowID uint32, cols [
 // todo combine with update page table code?
 func (rs *RelationService) Update(tableName string, rowID uint32, cols []string, updateSrc []interface{}) (WALBatch, error) {
 	var walLogs WALBatch
+
+	if isCatalogTable(tableName) {
+		return walLogs, ErrCatalogReadOnly
+	}
 
 	fileOffset, err := rs.getRelationFileOffset(tableName)
 	if err != nil {
@@ -1086,6 +1109,10 @@ func (rs *RelationService) Update(tableName string, rowID uint32, cols []string,
 
 func (rs *RelationService) MarkDeleted(tableName string, rowID uint32) (WALBatch, error) {
 	var walLogs WALBatch
+
+	if isCatalogTable(tableName) {
+		return walLogs, ErrCatalogReadOnly
+	}
 
 	fileOffset, err := rs.getRelationFileOffset(tableName)
 	if err != nil {
